@@ -65,7 +65,7 @@ def _cases(draw):
     cols = [draw(_columns(n, kind)) for _ in range(ny)]
     # the overall scale of a metric is arbitrary (rates of 1e-6, counts of 1e6): nothing in the
     # formulas may depend on it
-    scale = draw(st.sampled_from([1.0, 1.0, 1.0, 1e-4, 1e-8, 1e5]))
+    scale = draw(st.sampled_from([1.0, 1.0, 1.0, 1.0, 1e-4, 1e-8, 1e5, 2.0 ** -200, 2.0 ** -260, 2.0 ** 170, 2.0 ** 250]))
     if scale != 1.0:
         cols = [[v * scale for v in c] for c in cols]
     nan_mask = [[False] * n for _ in range(ny)]
@@ -304,4 +304,4 @@ PROP = Prop(
                  "finite replicates' claim presupposes one)"],
 )
 
-RULE_EXTRA = ('replicates scaled by 1e-8..1e5 with purely relative tolerances; alphas 1e-12..1-1e-9; float32 / int64 / Fortran-ordered replicate arrays.')
+RULE_EXTRA = ('replicates scaled by 1e-8..1e5 and by 2^-260..2^250 with purely relative tolerances; alphas 1e-12..1-1e-9; float32 / int64 / Fortran-ordered replicate arrays.')
